@@ -1,10 +1,37 @@
 """U6 range - `$tb::random` draws (C32: reproducible for a given seed and handle name; every range draw within its bounds).
-Back end: Kani/CBMC. get/get_range/mask/sign_extend: complete (loop-free, every u64 min/max, every width 0..=64, both
-signednesses, every draw rand may return). derive_seed: bounded stand-in (name <= 2 octets) + a syntactic scan of its body."""
+
+Job `range` (Kani/CBMC): get/get_range/mask/sign_extend: complete (loop-free, every u64 min/max, every width 0..=64, both
+signednesses, every draw rand may return). derive_seed: bounded stand-in (name <= 2 octets) + a syntactic scan of its body.
+
+Job `range_table` (Verus, unbounded): the generator TABLE. Real bodies of `reset`, `with_rng`, `seed_handle`, `get_seed_handle` and the
+real `struct RandomTable`, against contracts over the abstract view (base seed, Map<StrId, (generator, seed)>); lemmas over the contracts
+(history independence of reset, reproducibility, isolation of handles, explicit seed) and exec clients `vp_two_tests*` (units/range/table_spec.rs).
+Rewrite rules of that job (everything else is the original text):
+
+  TL  the thread-local cell becomes a parameter: `fn <name>(` -> `fn <name>(t: &mut RandomTable, `; `TABLE.with(|t| {` -> `{`; the matching
+      closing `})` -> `}`; `t.borrow_mut()` -> `t`  (so `let mut t = t.borrow_mut();` reads `let mut t = t;`). One table per thread: the parameter
+      stands for the calling thread's TABLE; no other thread can reach it (thread_local!), so there is no interference to model.
+  V1  `pub fn` -> `fn` on the four functions (their contracts mention the private struct; Verus rejects that on a public function)
+  E3  `#[derive(Default)]` dropped from RandomTable (the opaque generator stand-in has no Default; the initial table is not used by any contract)
+  O8  the seeding closure `|| { .. }` handed to `or_insert_with` gets a result name and a contract:
+      `|| -> (vp_o: (Pcg64, u64)) ensures vp_o == lazy_slot(vp_base, key) { .. }` - body text unchanged and CHECKED against it
+      (`vp_base` is a ghost copy of `t.base_seed` taken at function entry). Verus needs closure contracts; they are not inferred.
+  No rewrite at all for: `t.rngs.entry(key).or_insert_with(..)` (vstd specifies `HashMap::entry`; `Entry::or_insert_with` gets an
+  `assume_specification` modelled on vstd's `Entry::or_insert`, lazy: the closure's contract counts only for a vacant entry), `.insert`, `.clear`
+  (vstd), the destructuring `let (rng, _) = ..`, `.1`, and the user closure call `f(rng)`: `f` is specified with Verus closure specs
+  (`f.requires((m,))`, `f.ensures((m,), r)` over `m: &mut Pcg64`, `*m` the generator handed in, `*final(m)` the generator as left by f).
+  `Pcg64::seed_from_u64(s)` and `derive_seed(base, key)` keep their call text: the job declares an opaque `struct Pcg64` with that one
+  associated function (assumed result: the uninterpreted `gen_of(s)`) and a bodiless `derive_seed` (assumed result: the uninterpreted
+  `seed_of(base, key)`; its real signature is compared with the stub's, its definition is what the Kani job checks).
+
+Dry runs only: `VP_ONLY=verus ./check --unit range` (or `VP_ONLY=kani`) restricts `./check --unit` to one back end while iterating. The switch is
+ignored by `./check --rebaseline` and by property checks (`./check C32`), which always build and run both jobs."""
+import os
 import re
-from vp.core import KaniJob
+from vp.core import KaniJob, VerusJob
 from vp.extract import ExtractError
 from vp.kani_run import Harness
+from vp.verus_run import VerusFile
 from units.common import valuelib as VL
 
 RT = "crates/simulator/src/random_table.rs"
@@ -70,7 +97,27 @@ def scan_seed(it):
     return sorted(params), sorted(locs)
 
 
+def only_jobs(ctx, jobs):
+    """VP_ONLY=verus|kani: dry runs (`./check --unit range`, prop id `_try_range`) only. A property check or a rebaseline never skips a job."""
+    only = os.environ.get("VP_ONLY", "")
+    if not str(ctx.prop).startswith("_try_") or only not in ("verus", "kani"):
+        return jobs
+    cls = VerusJob if only == "verus" else KaniJob
+    return [j for j in jobs if isinstance(j, cls)]
+
+
 def build(ctx, res):
+    """the two jobs are built independently: a lost anchor (ExtractError) in one makes that job undecided and keeps the other's verdict"""
+    jobs = []
+    for mk in (kani_job, table_job):
+        try:
+            jobs.append(mk(ctx, res))
+        except ExtractError as e:
+            res.undecided.append("extraction (%s): %s" % (mk.__name__, e))
+    return only_jobs(ctx, jobs)
+
+
+def kani_job(ctx, res):
     vtext, vitems = VL.value_module(ctx, extra_value_fns=["payload_u64"])
     src = ctx.src(RT)
     items = {n: src.item("fn", n) for n in ["mask", "sign_extend", "get_range", "get", "derive_seed"]}
@@ -107,5 +154,194 @@ def build(ctx, res):
     })
     res.samples.append({"obligation": "kani:range:get_range_within_bounds", "contract": res.clauses["get_range"]})
     res.notes.append("range: reproducibility rests on derive_seed being a function of (base seed, handle name) [checked] and on rand_pcg::Pcg64::seed_from_u64 / "
-                     "random_range being deterministic functions of the generator state [trusted, rand]; with_rng/seed_handle/reset (thread-local table) are not under contract")
-    return [KaniJob("range", lib, hs, deps=VL.DEPS, items=vitems + list(items.values()), trusted=TRUSTED, jobs=4, timeout=900, per_harness_timeout=300)]
+                     "random_range being deterministic functions of the generator state [trusted, rand]; with_rng/seed_handle/get_seed_handle/reset (thread-local table) "
+                     "are under contract in job range_table (Verus)")
+    return KaniJob("range", lib, hs, deps=VL.DEPS, items=vitems + list(items.values()), trusted=TRUSTED, jobs=4, timeout=900, per_harness_timeout=300)
+
+
+# ---------------------------------------------------------------------------------------------------------------------------------
+# job `range_table` (Verus): the generator table
+# ---------------------------------------------------------------------------------------------------------------------------------
+SR = "crates/parser/src/resource_table.rs"
+
+T_HEADER = ("#![feature(allocator_api)]\nuse vstd::prelude::*;\nuse std::collections::HashMap;\nuse vstd::std_specs::hash::EntrySpecFns;\n"
+            "verus! {\nglobal size_of usize == 8;\nbroadcast use vstd::std_specs::hash::group_hash_axioms;\n")
+
+# the stub of table_spec.rs stands for exactly this function
+DERIVE_SEED_SIG = "fn derive_seed(base: u64, key: StrId) -> u64"
+
+T_TRUSTED = {
+    r"pub struct Pcg64": "rand_pcg::Pcg64 is an opaque external type (generator states are carried and compared, never inspected)",
+    r"fn seed_from_u64": "E-ext: `Pcg64::seed_from_u64(s)` (rand's SeedableRng) is a bodiless associated function of the opaque stand-in; ASSUMED: it returns gen_of(s), "
+                         "an uninterpreted function of s alone = rand_pcg's seeding is deterministic and reads no other state",
+    r"fn derive_seed": "E-ext: `derive_seed(base, key)` is bodiless here; ASSUMED: it returns seed_of(base, key), an uninterpreted function of (base, handle id). Its real "
+                       "signature is compared with the stub's; its real body is what the Kani job of this unit checks (FNV-1a over base ++ handle NAME; body reads nothing "
+                       "but its arguments and the interned name). Implicit: an interned id keeps its name for the life of the process (resource_table is append-only)",
+    r"or_insert_with\]": "std: `hash_map::Entry::or_insert_with` has no vstd specification; ASSUMED contract = vstd's own `Entry::or_insert` with the default made lazy: occupied -> "
+                         "the existing slot, unchanged, closure not called; vacant -> the slot is what the closure returns (closure precondition due only then); the slot's final "
+                         "content is the map's entry for that key (vstd `HashMap::entry` / `final_value`)",
+    r"axiom_strid_key_model|admit\(\)": "assumed: the derived Hash/Eq of the usize newtype StrId obeys vstd's key model (deterministic hashing); `broadcast use`d inside the functions only",
+}
+
+T_CANARIES = [
+    # the assumed axioms (key model, hash group) are consistent
+    ("vp_canary_axioms", "proof fn vp_canary_axioms() ensures false { broadcast use axiom_strid_key_model; }"),
+    # each contract relation is satisfiable in its interesting case
+    ("vp_canary_reset", "proof fn vp_canary_reset(pre: TV, post: TV, b: u64, k: StrId) requires reset_post(pre, post, b), pre.1.contains_key(k), pre.0 == b ensures false {}"),
+    ("vp_canary_seed_handle", "proof fn vp_canary_seed_handle(pre: TV, post: TV, k: StrId, j: StrId, s: u64) requires seed_handle_post(pre, post, k, s), j != k, pre.1.contains_key(j), pre.1.contains_key(k) ensures false {}"),
+    ("vp_canary_get_seed_absent", "proof fn vp_canary_get_seed_absent(pre: TV, post: TV, k: StrId, r: u64) requires get_seed_post(pre, post, k, r), !pre.1.contains_key(k) ensures false {}"),
+    ("vp_canary_get_seed_present", "proof fn vp_canary_get_seed_present(pre: TV, post: TV, k: StrId, r: u64) requires get_seed_post(pre, post, k, r), pre.1.contains_key(k) ensures false {}"),
+    ("vp_canary_with_rng_absent", "proof fn vp_canary_with_rng_absent(pre: TV, post: TV, k: StrId, g0: Pcg64, g1: Pcg64) requires with_rng_post(pre, post, k, g0, g1), !pre.1.contains_key(k), g1 != g0 ensures false {}"),
+    ("vp_canary_with_rng_present", "proof fn vp_canary_with_rng_present(pre: TV, post: TV, k: StrId, g0: Pcg64, g1: Pcg64) requires with_rng_post(pre, post, k, g0, g1), pre.1.contains_key(k), g1 != g0 ensures false {}"),
+    ("vp_canary_reproducible", "proof fn vp_canary_reproducible(pre: TV, s1: TV, s2: TV, b: u64, k: StrId, g0: Pcg64, g1: Pcg64) requires reset_post(pre, s1, b), with_rng_post(s1, s2, k, g0, g1), pre.1.contains_key(k), pre.0 == b ensures false {}"),
+    ("vp_canary_isolation", "proof fn vp_canary_isolation(pre: TV, post: TV, k: StrId, j: StrId, g0: Pcg64, g1: Pcg64) requires j != k, with_rng_post(pre, post, k, g0, g1), pre.1.contains_key(j) ensures false {}"),
+    # the closure precondition of with_rng / of the clients is satisfiable, and a closure postcondition is not vacuous
+    ("vp_canary_closure", "proof fn vp_canary_closure<R, F: FnOnce(&mut Pcg64) -> R>(f: F, r: R, b: u64, k: StrId, post: TV) requires forall|m: &mut Pcg64| #[trigger] f.requires((m,)), first_draw_post(f, r, b, k, post) ensures false {}"),
+]
+
+RESET_SPEC = """    ensures
+        // base seed recorded ...
+        final(t).base_seed == base_seed,
+        // ... and NO generator left - whatever the table held before (history independence; the clause a "clear only when the seed changes" reset breaks)
+        final(t).rngs@ =~= Map::<StrId, Slot>::empty(),
+        // (the same, as the relation the lemmas and clients use)
+        reset_post(tv(*old(t)), tv(*final(t)), base_seed),
+"""
+SEED_HANDLE_SPEC = """    ensures
+        seed_handle_post(tv(*old(t)), tv(*final(t)), key, seed),
+"""
+GET_SEED_SPEC = """    ensures
+        get_seed_post(tv(*old(t)), tv(*final(t)), key, r),
+"""
+WITH_RNG_SPEC = """    requires
+        // the closure accepts the generator the slot holds (or lazily gets)
+        forall|m: &mut Pcg64| *m == slot_of(tv(*old(t)), key).0 ==> #[trigger] f.requires((m,)),
+    ensures
+        // f ran once, on a reference m to the slot's generator: *m on entry, *final(m) as f left it, r its result
+        exists|m: &mut Pcg64| #[trigger] f.ensures((m,), r) && with_rng_post(tv(*old(t)), tv(*final(t)), key, *m, *final(m)),
+"""
+O8_OLD = r"\.or_insert_with\(\|\| \{"
+O8_NEW = ".or_insert_with(|| -> (vp_o: (Pcg64, u64)) ensures vp_o == lazy_slot(vp_base, key) {"
+GHOST_IN = "    broadcast use axiom_strid_key_model;\n    let ghost vp_base = t.base_seed;"
+
+
+def tl(f):
+    """rules TL + V1 on one of the four table functions"""
+    f.sub(r"(?:pub )?fn %s(<[^>]*>)?\(" % f.name, r"fn %s\1(t: &mut RandomTable, " % f.name, count=1, rule="TL+V1")
+    f.replace("TABLE.with(|t| {", "{", count=1, rule="TL")
+    f.sub(r"\}\)(;?\s*\}\s*)$", r"}\1", count=1, rule="TL")
+    f.sub(r"\bt\.borrow_mut\(\)", "t", count=1, rule="TL")
+    if re.search(r"\bTABLE\b|\bborrow\w*\(", f.render()):
+        raise ExtractError("%s still mentions the thread-local cell after rule TL" % f.name)
+    return f
+
+
+def table_job(ctx, res):
+    src = ctx.src(RT)
+    vf = VerusFile(header=T_HEADER)
+    items = []
+
+    def add(it, label=None):
+        items.append(it)
+        vf.item(it, label)
+
+    it = ctx.src(SR).item("struct", "StrId")
+    it.strip_derive("Debug", "Default", "PartialOrd", "Ord")
+    add(it)
+    it = src.item("struct", "RandomTable")
+    it.strip_derive("Default")
+    add(it)
+
+    # the stub `derive_seed` of table_spec.rs stands for the real one: same signature, or the anchor is lost
+    ds = src.item("fn", "derive_seed")
+    sig = " ".join(ds.orig[ds.kw_off:ds._toks[ds.body_open].start].split())
+    if sig != DERIVE_SEED_SIG:
+        raise ExtractError("derive_seed's signature is `%s`, the stub of job range_table stands for `%s`" % (sig, DERIVE_SEED_SIG))
+
+    # frame: the table is reachable only through the four functions under contract (and its own declaration)
+    fns = {n: src.item("fn", n) for n in ("reset", "with_rng", "seed_handle", "get_seed_handle")}
+    outside = len(re.findall(r"\bTABLE\b", src.text)) - sum(len(re.findall(r"\bTABLE\b", f.orig)) for f in fns.values())
+    if outside != 1:
+        raise ExtractError("random_table.rs mentions TABLE %d time(s) outside reset/with_rng/seed_handle/get_seed_handle (expected: its declaration only): "
+                           "another function reaches the generator table and is not under contract" % outside)
+    if not re.search(TL_DECL, src.text):
+        raise ExtractError("TABLE is no longer a thread_local RefCell<RandomTable>: rule TL (one private table per thread) does not apply")
+
+    vf.raw(ctx.unit_file("range", "table_spec.rs"), "spec")
+
+    f = tl(fns["reset"])
+    f.spec(RESET_SPEC)
+    f.at_start("    broadcast use axiom_strid_key_model;")
+    add(f)
+
+    f = tl(fns["with_rng"])
+    f.name_return("r")
+    f.sub(O8_OLD, O8_NEW, count=1, rule="O8")
+    f.spec(WITH_RNG_SPEC)
+    f.at_start(GHOST_IN)
+    add(f)
+
+    f = tl(fns["seed_handle"])
+    f.spec(SEED_HANDLE_SPEC)
+    f.at_start("    broadcast use axiom_strid_key_model;")
+    add(f)
+
+    f = tl(fns["get_seed_handle"])
+    f.name_return("r")
+    f.sub(O8_OLD, O8_NEW, count=1, rule="O8")
+    f.spec(GET_SEED_SPEC)
+    f.at_start(GHOST_IN)
+    add(f)
+
+    text = vf.finish()
+    res.clauses.update({
+        "table view": "tv(t) = (t.base_seed, t.rngs@ : Map<StrId, (generator, seed)>); slot_of(v, k) = v.1[k] if present else lazy_slot(v.0, k) = (gen_of(seed_of(base, k)), seed_of(base, k)); "
+                      "gen_of(s) = the generator Pcg64::seed_from_u64(s) returns, seed_of(b, k) = derive_seed(b, k) (both uninterpreted)",
+        "reset": "ensures base seed == argument and the map is EMPTY, for every previous table (history independence)",
+        "seed_handle": "ensures slot key == (gen_of(seed), seed); every other slot and the base seed unchanged",
+        "get_seed_handle": "ensures r == slot_of(old, key).1; slot key == slot_of(old, key) (an absent slot becomes (gen_of(seed_of(base, key)), seed_of(base, key)); a present one is "
+                           "untouched); every other slot and the base seed unchanged",
+        "with_rng": "requires f accepts the slot's generator; ensures f ran (f.ensures) on a reference whose entry value is slot_of(old, key).0 (stored generator, or the fresh "
+                    "gen_of(seed_of(base, key)) if absent); afterwards slot key == (generator as left by f, same seed); every other slot and the base seed unchanged",
+        "table lemmas": "after reset(b) the table is a function of b alone; the first with_rng(k)/get_seed_handle(k) after reset(b) starts from gen_of(seed_of(b, k)) / reports seed_of(b, k) for every "
+                        "earlier table; operations on k leave every j != k and the base seed alone; after seed_handle(k, s) the next draw starts from gen_of(s); streams continue across calls; "
+                        "a reset that clears only on a changed base seed provably leaves an earlier generator in place (lemma_conditional_clear_depends_on_history)",
+        "table clients": "vp_two_tests: reset(b); with_rng(k, fa); reset(b); with_rng(k, fb) - fb runs on gen_of(seed_of(b, k)) and the table ends as {k: (left by fb, seed_of(b, k))}: the same "
+                         "postcondition (first_draw_post) as vp_test_b_alone (reset(b); with_rng(k, fb)) on an arbitrary table; vp_two_tests_busy: same with a test A that also seeds k explicitly and uses another handle",
+        "table frame": "random_table.rs mentions TABLE only in its thread_local declaration and in the four functions under contract (syntactic check)",
+    })
+    res.samples.append({"obligation": "verus:range:reset", "contract": RESET_SPEC.strip() + "   where reset_post(pre, post, b) = post.0 == b && post.1 =~= Map::empty()"})
+    res.notes.append("range_table: not covered - the draws themselves (`rng.random_range(..)` inside the closures of get/get_range: rand's determinism is assumed; that get/get_range reach the "
+                     "table only as `with_rng(key, |rng| rng.random_range(..))` with their own `key` is checked by rule O9 of the Kani job); the call site `random_table::reset(sim.ir.seed)` at the "
+                     "start of testbench::run_testbench (that every test begins with reset is not checked here); other per-test thread-local state (file_table, assert_buffer)")
+    expect = ["reset", "with_rng", "seed_handle", "get_seed_handle",
+              "lemma_reset_history_independent", "lemma_reproducible_after_reset", "lemma_isolation", "lemma_explicit_seed", "lemma_stream_continues",
+              "lemma_conditional_clear_depends_on_history", "vp_two_tests", "vp_test_b_alone", "vp_two_tests_busy"]
+    return VerusJob("range_table", text, vf, expect, canaries=T_CANARIES, items=items, trusted=T_TRUSTED, rlimit=30)
+
+
+TL_DECL = r"thread_local!\s*\{\s*static TABLE: RefCell<RandomTable> = RefCell::new\(RandomTable::default\(\)\);\s*\}"
+NATIVE_DEPS = {"rand": '{ version = "0.10", default-features = false }', "rand_pcg": '"0.10"'}   # as in /repo/Cargo.toml [workspace.dependencies]
+
+
+def replay(ctx, res, failure):
+    """job range_table: seeded native run of the ORIGINAL text of the table (struct, thread_local!, derive_seed, reset, with_rng, seed_handle,
+    get_seed_handle; real rand / rand_pcg) against an executable form of the contracts (units/range/table_replay.rs): random operation sequences in which
+    the same base seed recurs; every seed read and every draw is compared with the contract model. Kani failures are replayed by the driver itself."""
+    from vp.core import native_search, NATIVE_RNG
+    o = failure.get("obl")
+    if o is not None and o.backend != "verus":
+        return None
+    src = ctx.src(RT)
+    m = re.search(TL_DECL, src.text)
+    if not m:
+        return {"found_input": False, "native_search": "TABLE declaration not found"}
+    strid = ctx.src(SR).item("struct", "StrId").orig
+    real = "\n".join([src.item("struct", "RandomTable").orig, m.group(0)] +
+                     [src.item("fn", n).orig for n in ("derive_seed", "reset", "with_rng", "seed_handle", "get_seed_handle")])
+    body = ("#![allow(dead_code, unused_imports, unused_mut)]\nuse rand::{RngExt, SeedableRng};\nuse rand_pcg::Pcg64;\nuse std::cell::RefCell;\nuse std::collections::HashMap;\n"
+            "use resource_table::StrId;\n"
+            "mod resource_table {\n" + strid + "\n    /// stand-in: every id is interned, under a name of its own\n"
+            "    pub fn get_str_value(id: StrId) -> Option<String> { Some(format!(\"handle_{}\", id.0)) }\n}\n"
+            + NATIVE_RNG + real + "\n" + ctx.unit_file("range", "table_replay.rs"))
+    return native_search(ctx, "range", "range_table", body, args=[ctx.seed], timeout=900, deps=NATIVE_DEPS)
